@@ -73,6 +73,67 @@ theorem popValue_norm (o : Ops) (s : MSt) (el : Str) : popValue o (normSt s) el 
     have hn : (normE top).name = top.name := rfl
     simp only [normSt, hs, List.map_cons, hn, normE_flatten]
 
+/-- the same for the `pop` of a text construct: returned value and new state -/
+theorem popFull_norm (o : Ops) (s : MSt) (el : Str) :
+    (popFull o (normSt s) el).1 = (popFull o s el).1 ∧ normSt (popFull o (normSt s) el).2 = normSt (popFull o s el).2 := by
+  unfold popFull
+  cases hs : s.stack with
+  | nil => simp [normSt, hs]
+  | cons top rest =>
+    simp only [normSt, hs, List.map_cons]
+    have hn : (normE top).name = top.name := rfl
+    have he : (normE top).expecting = top.expecting := rfl
+    simp only [hn, he, normE_flatten]
+    by_cases h1 : (top.name != el) = true
+    · simp [h1, hs]
+    · simp only [h1, Bool.false_eq_true, ↓reduceIte]
+      by_cases h2 : (!top.expecting) = true
+      · simp [h2]
+      · simp only [h2, Bool.false_eq_true, ↓reduceIte]
+        split
+        · simp
+        · split
+          · simp
+          · split
+            · simp
+            · split
+              · simp
+              · simp
+
+theorem popContent_norm (o : Ops) (s : MSt) (k : Str) :
+    (popContent o (normSt s) k).1 = (popContent o s k).1 ∧ normSt (popContent o (normSt s) k).2 = normSt (popContent o s k).2 := by
+  have h := popFull_norm o s k
+  unfold popContent
+  refine ⟨h.1, ?_⟩
+  have h2 := (normSt_eq_iff _ _).mp h.2
+  rw [normSt_eq_iff]
+  exact ⟨by simp only [h2.1], h2.2⟩
+
+theorem endContent_norm (o : Ops) (s : MSt) (h : Str) : (endContent o (normSt s) h).norm = (endContent o s h).norm := by
+  unfold endContent
+  cases hk : contentEndKey h with
+  | none => rfl
+  | some k =>
+    cases hs : s.stack with
+    | nil => simp [normSt, hs]
+    | cons top rest =>
+      have hst : (normSt s).stack = normE top :: rest.map normE := by simp [normSt, hs]
+      simp only [hst]
+      have hn : (normE top).name = top.name := rfl
+      simp only [hn]
+      by_cases h1 : (top.name != k) = true
+      · simp [h1]
+      · simp only [h1, Bool.false_eq_true, ↓reduceIte, Outcome.norm]
+        congr 1
+        have hp := popContent_norm o s k
+        have h2 := (normSt_eq_iff _ _).mp hp.2
+        rw [normSt_eq_iff]
+        refine ⟨?_, h2.2⟩
+        have e1 : afterTitle k (popContent o (normSt s) k) = afterTitle k (popContent o s k) := by
+          unfold afterTitle
+          rw [hp.1, h2.1]
+        rw [e1]
+
 theorem handleData_norm (s : MSt) (t : Str) : normSt (handleData (normSt s) t) = normSt (handleData s t) := by
   unfold handleData
   cases hs : s.stack with
@@ -95,10 +156,20 @@ theorem applyDispatch_norm (st : List Elem) (r : Except Str (Core × Option Elem
 theorem step_norm (o : Ops) (s : MSt) (e : MEv) : (mstep o (normSt s) e).norm = (mstep o s e).norm := by
   cases e with
   | start tag attrs =>
-    simp only [mstep, startTag, normSt_c, normSt_stack]
-    exact applyDispatch_norm _ _
+    simp only [mstep, startTag, normSt_c]
+    by_cases hc : s.c.incontent = true
+    · simp only [hc, ↓reduceIte]
+    · simp only [hc, Bool.false_eq_true, ↓reduceIte, startTag0, normSt_c, normSt_stack]
+      exact applyDispatch_norm _ _
   | stop tag =>
     simp only [mstep, endTag, normSt_c]
+    by_cases hc : s.c.incontent = true
+    · simp only [hc, ↓reduceIte]
+      exact endContent_norm o s _
+    simp only [hc, Bool.false_eq_true, ↓reduceIte]
+    by_cases hk : (contentEndKey (handlerName s.c tag)).isSome = true
+    · simp only [hk, ↓reduceIte]
+    simp only [hk, Bool.false_eq_true, ↓reduceIte, endTag0, normSt_c]
     have hpop : ∀ el, normSt (pop o (normSt s) el) = normSt (pop o s el) := pop_norm o s
     by_cases c1 : (handlerName s.c tag == S "channel" || handlerName s.c tag == S "feed") = true
     · simp only [c1, ↓reduceIte]
